@@ -41,9 +41,9 @@ def engine_factory(name: str):
 
 # property -> list of (engine, quick runs, thorough runs)
 PLAN: dict[str, list[tuple[str, int, int]]] = {
-    'C07': [('storesim', 5000, 50000), ('docsim', 600, 8000)],
-    'C08': [('storesim', 4000, 40000), ('docsim', 1200, 15000), ('edsim', 600, 6000)],
-    'C19': [('docsim', 2000, 30000), ('storesim', 1500, 15000), ('exprsim', 3000, 30000)],
+    'C07': [('storesim', 4000, 50000), ('docsim', 500, 8000)],
+    'C08': [('storesim', 3000, 40000), ('docsim', 900, 15000), ('edsim', 600, 6000)],
+    'C19': [('docsim', 1400, 30000), ('storesim', 1200, 15000), ('exprsim', 3000, 30000)],
     'C12': [('toksim', 60000, 600000)],
     'C13': [('exprsim', 8000, 100000)],
     'C16': [('edsim', 2500, 30000)],
